@@ -969,7 +969,8 @@ class HierarchicalMachine(Machine):
         else:
             event.source_name = current_state
             event.source_path = current_state.split(self.state_cls.separator)
-        self._create_transition(event.source_name, state_name).execute(event)
+        event.transition = self._create_transition(event.source_name, state_name)
+        event.transition.execute(event)
 
     def trigger_event(self, model, trigger, *args, **kwargs):
         """Processes events recursively and forwards arguments if suitable events are found.
